@@ -1,7 +1,7 @@
 (* Props/C08.v -- property C08: printed scripts parse back to the same script at every line width.
    Only statements; every proof is [exact lemma]. *)
 From TV Require Import Base.I32 Gen.FmtTables Model.Fmt Model.FmtLex Model.FmtParse Spec.Fmt
-  Proofs.FmtLits Proofs.FmtLexP Proofs.FmtLitRT Proofs.FmtWidth Proofs.FmtExprLex Proofs.FmtTables.
+  Proofs.FmtLits Proofs.FmtLexP Proofs.FmtLitRT Proofs.FmtWidth Proofs.FmtExprLex Proofs.FmtTables Proofs.FmtFold.
 Open Scope Z_scope.
 
 (* (1) integer literals: every i32 in every IntFormat (signed/unsigned decimal, hex, binary, bool,
@@ -73,6 +73,12 @@ Theorem C08_float_bits_roundtrip : forall (pf : string -> Z) (fd : Z -> string),
   exists e, parse_text pf (concat_text (flat (DSeq (pp_float fd b)))) = Ok e /\ fold e = FLitF b.
 Proof. exact float_bits_roundtrip. Qed.
 
+(* (6) what the parser is expected to give back for a printed expression ([unfold]: negative literals
+       become a unary minus, the IntFormat hint is gone, INF/NAN/true/false are names) denotes the same
+       script as the expression that was printed, for every expression without a non-canonical NaN *)
+Theorem C08_unfold_same_script : forall e, lits_ok e = true -> no_odd_nan e = true -> fold (unfold e) = fold e.
+Proof. exact fold_unfold. Qed.
+
 (* finding #11: NaN payloads and signs are not preserved *)
 Theorem C08_nan_payload_refuted : forall fd,
   concat_text (flat (DSeq (pp_float fd 2143289345))) = "NAN"%string
@@ -98,7 +104,7 @@ Definition C08_full : Prop :=
   forall sup e, pr_expr fd e = true ->
     lex (print_expr fd sup e) = Ok (expr_toks fd sup e)                    (* proved: C08_expr_no_token_gluing *)
     /\ parse_tokens pf (expr_toks fd sup e) = Ok (unfold e)                (* checked per case by the correspondence *)
-    /\ (no_odd_nan e = true -> fold (unfold e) = fold e).
+    /\ (no_odd_nan e = true -> fold (unfold e) = fold e).                  (* proved: C08_unfold_same_script *)
 
 Print Assumptions C08_expr_no_token_gluing.
 Print Assumptions C08_int_literal_roundtrip.
